@@ -1364,6 +1364,9 @@ func (g *gen) importClause(p *pattern) importCase {
 		}
 		if g.chance(0.7) {
 			ic.filePkg = pk
+		} else if g.chance(0.6) {
+			// a package whose name only resembles the one the patch names
+			ic.filePkg = g.pick(pk+"_test", pk+"2", "x"+pk, pk+"_", strings.ToUpper(pk[:1])+pk[1:])
 		}
 	}
 	nimp := 1
